@@ -106,7 +106,7 @@ def coef_samples(st, rnd, tier):
 # ---------------------------------------------------------------------------------------------------------------------
 # O1 FermionOperator binary arithmetic: value + frame, all operand-class combinations
 
-F_SHAPES = [([0], [1]), ([0, 2], [0]), ([0, 3], [2, 4]), ([1], [1]), ([0, 1], [3])]
+F_SHAPES = [([0], [1]), ([0, 2], [0]), ([0, 3], [2, 4]), ([1], [1]), ([0, 1], [3]), ([], [0, 2]), ([1, 3], []), ([], [])]
 BINOPS = ["add", "radd", "sub", "rsub", "mul", "rmul"]
 
 
@@ -160,8 +160,14 @@ def o1(h, st):
     h.check("left operand unchanged", state(a) == sa)
     h.check("right operand unchanged", state(b) == sb)
     h.check("result is a new object", r is not a and r is not b)
+    h.check("result shares no term dictionary with an operand", r.terms is not a.terms and r.terms is not b.terms)
     exp = expected_terms(st["op"], ta, tb)
     check_terms(h, st["op"], dict(r.terms), exp)
+    # a later in-place update of the result must not reach the operands
+    bump = mk_fermion("tangelo", [2], [1.0], attrs) if st["ka"] == "tangelo" and st["op"] != "mul" else None
+    if bump is not None and type(r).__name__ == "FermionOperator" and hasattr(r, "n_spinorbitals"):
+        h.call(OP, "FermionOperator.__iadd__", r, bump)
+        h.check("in-place update of the result leaves the operands unchanged", state(a) == sa and state(b) == sb)
     if st["attrs"] and st["ka"] == "tangelo":
         h.check("attributes carried to the result", (r.n_spinorbitals, r.n_electrons, r.spin) == attrs)
     h.done()
